@@ -16,6 +16,29 @@ pub struct Index {
   pub index_sats: bool,
 }
 
+/// SHIM for the two Updater fields `index_transaction_sats` touches (real struct has ~12).
+pub struct Updater<'index> {
+  pub index: &'index Index,
+  pub sat_ranges_since_flush: u64,
+}
+
+/// SHIM for redb::Table: records inserts (the rare-sat table is write-only here).
+pub struct Table<K, V> {
+  pub log: Vec<(u64, [u8; 44])>,
+  pub marker: std::marker::PhantomData<(K, V)>,
+}
+
+impl<'a> Table<u64, &'a entry::SatPointValue> {
+  pub fn insert(&mut self, k: &u64, v: &entry::SatPointValue) -> Result<()> {
+    self.log.push((*k, *v));
+    Ok(())
+  }
+}
+
+use self::entry::SatPointValue;
+
+pub mod updater_extract; // GENERATED: real text of Updater::index_transaction_sats
+
 pub mod entry; // real
 pub mod lot; // real
 pub mod utxo_entry; // real
@@ -24,3 +47,5 @@ pub mod utxo_entry; // real
 mod h_entry;
 #[cfg(kani)]
 mod h_utxo;
+#[cfg(kani)]
+mod h_insid;
